@@ -21,7 +21,7 @@ TECHNIQUE = (
     "mirror of the registration history"
 )
 LEVEL_TEXT = (
-    "Held on every generated history: ~3e5 (quick) / ~9e6 (thorough) routed requests and ~6e4 / ~2e6 discovery queries over random "
+    "Held on every generated history: ~3.7e5 (quick) / ~1.3e7 (thorough) routed requests and ~6e4 / ~2.3e6 discovery queries over random "
     "trees (segments from {a,b,c,''}, path length <= 4, nested sites <= 3 levels, hidden resources, multi-valued rt/if/ct) with "
     "interleaved add/remove; says nothing about trees, paths or filter values outside those generators."
 )
